@@ -1,7 +1,10 @@
 (* Trace validation for the OLC index: the event traces printed by
    harness/olc_sched (E lines) are projected per node and replayed through the
    extracted acceptor (OlcTrace.node_diag = LockModel.lrun per node) and the
-   no-wait-while-holding check.  One verdict line per execution that carries a trace. *)
+   no-wait-while-holding check.  One verdict line per execution that carries a trace.
+   Additionally the events of every get / insert / remove (between the OPBEGIN / OPEND markers of one thread) are
+   checked by the extracted read-protocol acceptor Olc/Protocol.op_ok (no unvalidated read, lock coupling, no write
+   guard left at return); violations are printed as PROTO lines. *)
 open Model
 open Zutil
 
@@ -11,6 +14,7 @@ let () =
   let evs = ref [] in
   let has_trace = ref false in
   let n = ref 0 and rejected = ref 0 and total_events = ref 0 in
+  let proto_ops = ref 0 and proto_bad = ref 0 in
   let finish () =
     if !has_trace then begin
       incr n;
@@ -26,8 +30,36 @@ let () =
         let t = match Hashtbl.find_opt words blk with Some t -> t | None -> let t = Hashtbl.create 8 in Hashtbl.add words blk t; t in
         match Hashtbl.find_opt t off with Some i -> i | None -> let i = Hashtbl.length t in Hashtbl.add t off i; i in
       let out = ref [] in
+      (* read-protocol acceptor per operation *)
+      let cur_op : (int, (string * pev list ref)) Hashtbl.t = Hashtbl.create 8 in
+      List.iter (fun e ->
+        let add pe = match Hashtbl.find_opt cur_op e.tid with Some (_, r) -> r := pe :: !r | None -> () in
+        let nb = nat_of_int e.blk in
+        match e.kind with
+        | "OPBEGIN" -> Hashtbl.replace cur_op e.tid (Printf.sprintf "%c %x" (Char.chr (e.a land 255)) e.b, ref [])
+        | "OPEND" ->
+          (match Hashtbl.find_opt cur_op e.tid with
+           | Some (name, r) ->
+             incr proto_ops;
+             let is_scan = (match name.[0] with 'G' | 'I' | 'R' -> false | _ -> true) in
+             if not ((if is_scan then scan_ok else op_ok) (List.rev !r)) then begin
+               incr proto_bad;
+               if !proto_bad <= 5 then Printf.printf "PROTO thread %d op %s: read protocol violated (unvalidated read, broken lock coupling, guard left held, or a version used for another node)\n" e.tid name
+             end;
+             Hashtbl.remove cur_op e.tid
+           | None -> ())
+        | "ALLOC" -> add (PAlloc nb)
+        | "RLOCK" -> add (PRLock (nb, e.a land 3 = 0, z_of_int e.a))
+        | "CHECK" -> add (PCheck (nb, e.a = e.b, z_of_int e.a))
+        | "UPGRADE" -> add (PUpgrade (nb, e.b = 1, z_of_int e.a))
+        | "WUNLOCK" -> add (PUnlock nb)
+        | "WOBSOLETE" -> add (PObsolete nb)
+        | "LOAD" -> add (PLoad nb)
+        | "STORE" -> add (PStore nb)
+        | _ -> ()) l;
       List.iter (fun e ->
         match e.kind with
+        | "OPBEGIN" | "OPEND" -> ()
         | "ALLOC" -> Hashtbl.replace alloc_by e.blk e.tid
         | "FREE" | "RETIRE" -> ()
         | "LOAD" | "STORE" ->
@@ -72,7 +104,19 @@ let () =
           let lw = match Hashtbl.find_opt init_lw blk with Some v -> v | None -> 0 in
           (nat_of_int blk, { lw = z_of_int lw; lmem = mem; guards = [] }) :: acc
         end) locked [] in
-      (match node_diag inits tr with
+      (* projection per node done here (one pass), then the extracted node_diag on each node's own events:
+         node_diag [(b, s)] (events of b) = the acceptor on b's projection; avoids nodes x events work *)
+      let by_node : (int, (nat * event) list ref) Hashtbl.t = Hashtbl.create 64 in
+      List.iter (fun (b, ev) ->
+        let k = int_of_nat b in
+        match Hashtbl.find_opt by_node k with Some r -> r := (b, ev) :: !r | None -> Hashtbl.add by_node k (ref [(b, ev)])) tr;
+      let diag = List.fold_left (fun acc (b, st) ->
+        match acc with
+        | Some _ -> acc
+        | None ->
+          let evs = match Hashtbl.find_opt by_node (int_of_nat b) with Some r -> List.rev !r | None -> [] in
+          node_diag [(b, st)] evs) None inits in
+      (match diag with
        | Some (b, i) -> incr rejected; Printf.printf "REJECT node %d event %d of its projection\n" (int_of_nat b) (int_of_nat i)
        | None ->
          if no_wait_while_holding [] tr then print_endline "ok"
@@ -91,4 +135,4 @@ let () =
     | ["Y"] -> finish ()
     | _ -> ()
   done with End_of_file -> ());
-  Printf.printf "T traces=%d rejected=%d events=%d\n" !n !rejected !total_events
+  Printf.printf "T traces=%d rejected=%d events=%d protocol_ops=%d protocol_bad=%d\n" !n !rejected !total_events !proto_ops !proto_bad
